@@ -63,3 +63,34 @@ Example C13_nonvacuous :
      = Ok [{| c_name := "I"; c_strata := [("age", "y")]%string |}]
   /\ List.length (query_flows ex_m (Some "rec"%string) [("age", "o")]%string []) = 1%nat.
 Proof. split; [exact ex_model_ok|]. split; vm_compute; reflexivity. Qed.
+
+(* flow adjustments restricted by source / destination strata (Stratification.get_flow_adjustment): of the requests
+   declared for the flow's name, in declaration order, the LAST one whose source filter holds at the flow's source and
+   whose destination filter holds at its destination (each end on its own; a missing end never excludes) decides;
+   requests that do not select the flow play no part, whatever key/value pairs they share with the one that does;
+   no request selecting it means no adjustment - for every stratification, flow and list of requests *)
+Theorem C13_adjustment_selection :
+  forall s f r,
+    get_flow_adjustment s f = Ok r ->
+    match r with
+    | Some a => exists pre e post, declared_for s (f_name f) = pre ++ e :: post /\ request_selects f e /\ fst (fst e) = a
+                                   /\ Forall (fun x => ~ request_selects f x) post
+    | None => Forall (fun x => ~ request_selects f x) (declared_for s (f_name f))
+    end.
+Proof. exact adjustment_selection. Qed.
+Print Assumptions C13_adjustment_selection.
+
+(* non-vacuity: two requests for "prog" whose filters hold the same pair at opposite ends - {source: clin=asym}, then
+   {dest: clin=asym}; the flow E[clin=asym] -> I[clin=sym] is selected by the first only and takes ITS adjustment *)
+Example C13_adjustment_nonvacuous :
+  let adj1 := [("y", Some (AMul (EConst 2)))]%string in
+  let adj2 := [("y", Some (AMul (EConst 5)))]%string in
+  let s := {| s_name := "age"; s_kind := SPlain; s_strata := ["y"]%string; s_comps := ["E"; "I"]%string; s_split := [];
+              s_fadj := [("prog", (adj1, [("clin", "asym")], [])); ("prog", (adj2, [], [("clin", "asym")]))]%string;
+              s_iadj := []; s_mix := None |} in
+  let f := {| f_name := "prog"; f_kind := KTrans;
+              f_src := Some {| c_name := "E"; c_strata := [("clin", "asym")]%string |};
+              f_dst := Some {| c_name := "I"; c_strata := [("clin", "sym")]%string |};
+              f_param := EConst 1; f_adjs := [] |} in
+  get_flow_adjustment s f = Ok (Some adj1).
+Proof. vm_compute. reflexivity. Qed.
